@@ -108,6 +108,7 @@ type elem struct {
 type grule struct {
 	Elems []elem
 	Bad   []string // reasons this rule must be refused (sorted, de-duplicated)
+	Nil   bool     // no elements: hand a nil map (not an empty one) to the parser
 }
 
 var fieldKeys = []string{"fromnode", "tonode", "fromservice", "toservice"}
@@ -216,6 +217,9 @@ func genPattern(r *Rng, key string, depth int) elem {
 
 func genRule(r *Rng, wantBad bool, depth int) grule {
 	var g grule
+	if wantBad && r.Chance(5) {
+		return grule{Nil: r.Bool(), Bad: []string{"no-action"}} // `- {}` / a nil map
+	}
 	// action
 	act := elem{Role: "action"}
 	switch x := r.Intn(100); {
@@ -309,6 +313,9 @@ func genRule(r *Rng, wantBad bool, depth int) grule {
 }
 
 func (g grule) data() netceptor.FirewallRuleData {
+	if g.Nil && len(g.Elems) == 0 {
+		return nil
+	}
 	m := netceptor.FirewallRuleData{}
 	for _, e := range g.Elems {
 		m[e.Key] = e.Val
@@ -326,7 +333,7 @@ func (g grule) coq() string {
 		if s, ok := e.Val.(string); ok {
 			v = "VStr " + coqText(s)
 		}
-		xs[i] = "(" + k + ", " + v + ")"
+		xs[i] = "KV (" + k + ") (" + v + ")"
 	}
 	return CoqList(xs)
 }
@@ -386,9 +393,9 @@ func tableCoq(gss ...[]grule) string {
 					Must(fmt.Errorf("harness: pattern %q: regexp.Compile err=%v but generator AST present=%v", in, err, e.Ast != nil))
 				}
 				if e.Ast != nil {
-					xs = append(xs, "("+coqText(in)+", Some "+coqRe(e.Ast)+")")
+					xs = append(xs, "TS "+coqText(in)+" "+coqRe(e.Ast))
 				} else {
-					xs = append(xs, "("+coqText(in)+", None)")
+					xs = append(xs, "TN "+coqText(in))
 				}
 			}
 		}
@@ -536,12 +543,11 @@ type output struct {
 }
 
 func (o output) coq() string {
-	n := "None"
 	if o.Notice != nil {
-		n = fmt.Sprintf("(Some (mkU %s %s %s %s %s))", coqText(o.Notice.FromNode), coqText(o.Notice.ToNode),
+		return fmt.Sprintf("ON %s (mkU %s %s %s %s %s)", o.P.coq(), coqText(o.Notice.FromNode), coqText(o.Notice.ToNode),
 			coqText(o.Notice.FromService), coqText(o.Notice.ToService), coqText(o.Notice.Problem))
 	}
-	return "(" + o.P.coq() + ", " + n + ")"
+	return "OP " + o.P.coq()
 }
 
 func (o output) String() string {
@@ -552,7 +558,10 @@ func (o output) String() string {
 }
 
 // oracleNode: the packets that get past the firewall of node self because of p
-func oracleNode(self string, rs []orule, p packet) []output {
+func oracleNode(self string, rs []orule, p packet) []output { return oracleNode2(self, rs, rs, p) }
+
+// oracleNode2: rs judges the packet, rsNotice the notice it may cause
+func oracleNode2(self string, rs, rsNotice []orule, p packet) []output {
 	switch oracleVerdict(rs, p) {
 	case "accept":
 		return []output{{P: p}}
@@ -563,7 +572,7 @@ func oracleNode(self string, rs []orule, p packet) []output {
 		return nil
 	}
 	np := packet{self, "unreach", p.FromNode, "unreach"}
-	if oracleVerdict(rs, np) != "accept" {
+	if oracleVerdict(rsNotice, np) != "accept" {
 		return nil
 	}
 	return []output{{P: np, Notice: &netceptor.UnreachableMessage{FromNode: p.FromNode, ToNode: p.ToNode,
@@ -674,7 +683,7 @@ func (h *harness) ruleSetCase(gs []grule, pkts []packet, kind string) {
 			for i, f := range fns {
 				res[i] = resName(f(p.md()))
 			}
-			pk = append(pk, "("+p.coq()+", "+CoqList(res)+")")
+			pk = append(pk, "PK "+p.coq()+" "+CoqList(res))
 			if want != nil {
 				// oracle: each function answers its action when the rule matches, Continue otherwise
 				hit := false
@@ -730,7 +739,7 @@ func runC12(c *Ctx) {
 	QuietLogs()
 	im := NewImpl("C12", c.Seed, c.Tier)
 	im.Rule = "rule sets: 0-5 rules, each any subset of the four fields with literal / AST-generated regex / malformed patterns, keys in any case, all actions; a separate malformed stream puts one or more uninterpretable elements (unknown or non-string key, unknown or missing action, non-string value, malformed pattern, duplicate key) into a set; packets: drawn inside the patterns of one rule, then 0-2 fields moved just outside (junk before/after, one character changed); non-trivial = rule set not empty; distinct by rule set (parse) and by rule set x packet (verdict, node, chain)"
-	cf := &CaseFile{Dir: c.Out, Prop: "C12", Imports: []string{"Model.Firewall"}, CaseType: "fw_case", CheckFn: "fw_check", PerShard: 60}
+	cf := &CaseFile{Dir: c.Out, Prop: "C12", Imports: []string{"Model.Firewall"}, CaseType: "fw_case", CheckFn: "fw_check", PerShard: 120}
 	if strings.Contains(c.Tier, "hist") || envHist() {
 		cf.CheckFn = "fw_check_hist"
 	}
